@@ -60,8 +60,10 @@ def true_duration_ms(path):
     if str(path).endswith(".wav"):
         with wave.open(str(path), "rb") as w:
             return w.getnframes() * 1000 // w.getframerate()      # exact whole milliseconds (no floating point)
-    from mutagen.oggvorbis import OggVorbis
-    return int(OggVorbis(str(path)).info.length * 1000)
+    # Ogg Vorbis: the granule position of the last page is the number of samples, the identification header holds the rate
+    import oggtool
+    samples, rate = oggtool.info(Path(path).read_bytes())
+    return samples * 1000 // rate
 
 
 def job_save(j):
@@ -116,6 +118,10 @@ def job_audio(j):
         for i, kind in enumerate(j["files"]):
             p = work / (j["names"][i] if j.get("names") else f"import {i} {kind}{AUDIO[kind].suffix}")
             shutil.copyfile(AUDIO[kind], p)
+            if kind == "ogg" and j.get("ogg_granule"):
+                # the same sound cut to a given number of samples (last page's granule position, checksum recomputed)
+                import oggtool
+                p.write_bytes(oggtool.with_granule(p.read_bytes(), j["ogg_granule"]))
             files.append(p)
         mpq_io = StarCraftMpqIoHelper.create_mpq_io()
         wav_io = StarCraftMpqIoHelper.create_wav_io()
